@@ -19,7 +19,7 @@ from typing import Any, Dict, List, Optional, Tuple
 
 import sympy as sp
 
-from ..algebra import HBAR, SymEval, Untranslatable, dagger, is_zero, residual_text, to_matrix, normal_form
+from ..algebra import local_param_env, HBAR, SymEval, Untranslatable, dagger, is_zero, residual_text, to_matrix, normal_form
 from ..index import ClassInfo, FuncInfo, get_index, dotted, norm, calls_in
 from ..registry import get_registry
 from ..report import Context, AnalysisError
@@ -261,7 +261,9 @@ def run(ctx: Context) -> None:
                 side = b if "_m" in norm(a) else (a if "_m" in norm(b) else None)
                 if side is not None and "_m" in norm(c.args[0]):
                     rs, ps = sp.Symbol("r", real=True), sp.Symbol("phi", real=True)
-                    ev = SymEval(disp, {}, env={"r": rs, "phi": ps, "np": "<np>"})
+                    env_ = {"r": rs, "phi": ps, "np": "<np>"}
+                    env_.update(local_param_env(disp.node, {"r": rs, "phi": ps}))
+                    ev = SymEval(disp, {}, env=env_)
                     try:
                         got = ev.ev(side)
                         ok = is_zero(got - rs * sp.exp(sp.I * ps))
@@ -299,6 +301,18 @@ def run(ctx: Context) -> None:
 
 
 # ================================================================================================ (e)
+
+
+def _field_block(e: ast.AST):
+    """`<obj>._C[<name>]` -> ("_C", "block");  `<obj>._C[<name>, :]` -> ("_C", "rows");  anything else -> None.
+    The index variable may be called anything."""
+    if isinstance(e, ast.Subscript) and isinstance(e.value, ast.Attribute) and e.value.attr in ("_C", "_G", "_m"):
+        if isinstance(e.slice, ast.Name):
+            return e.value.attr, "block"
+        if isinstance(e.slice, ast.Tuple) and len(e.slice.elts) == 2 and isinstance(e.slice.elts[0], ast.Name) \
+                and isinstance(e.slice.elts[1], ast.Slice) and e.slice.elts[1].lower is None and e.slice.elts[1].upper is None:
+            return e.value.attr, "rows"
+    return None
 
 
 def clause_e(ctx: Context, idx) -> None:
@@ -351,10 +365,10 @@ def clause_e(ctx: Context, idx) -> None:
     loc = locals_of(f)
     env = {params[1]: P, params[2]: A}
     for name, src in loc.items():
-        t = norm(src)
-        if t.endswith("._C[index]"):
+        fb = _field_block(src)
+        if fb == ("_C", "block"):
             env[name] = C
-        elif t.endswith("._G[index]"):
+        elif fb == ("_G", "block"):
             env[name] = G
     ev = mo.WordEval(env)
     G2, C2 = mo.oracle_second_moments(P, A, C, G)
@@ -370,9 +384,9 @@ def clause_e(ctx: Context, idx) -> None:
     env = {params[1]: Tm}
     text_env = {}
     for n in ast.walk(f.node):
-        if isinstance(n, ast.Subscript) and norm(n).endswith("._C[index]"):
+        if _field_block(n) == ("_C", "block"):
             text_env[norm(n)] = C
-        if isinstance(n, ast.Subscript) and norm(n).endswith("._G[index]"):
+        if _field_block(n) == ("_G", "block"):
             text_env[norm(n)] = G
     ev = mo.WordEval(env, text_env)
     G2p, C2p = mo.oracle_second_moments(Tm, mo.ZERO, C, G)
@@ -422,20 +436,21 @@ def clause_e(ctx: Context, idx) -> None:
         text_env = {}
         loc = locals_of(f)
         for name, src in loc.items():
-            t = norm(src)
-            if t.endswith("._C[auxiliary_index]"):
+            fb = _field_block(src)
+            if fb == ("_C", "block"):
                 env[name] = Cx
-            if t.endswith("._G[auxiliary_index]"):
+            if fb == ("_G", "block"):
                 env[name] = Gx
         for n in ast.walk(f.node):
-            if isinstance(n, ast.Subscript) and norm(n).endswith("._C[auxiliary_index]"):
+            fb = _field_block(n)
+            if fb == ("_C", "block"):
                 text_env[norm(n)] = Cx
-            if isinstance(n, ast.Subscript) and norm(n).endswith("._G[auxiliary_index]"):
+            if fb == ("_G", "block"):
                 text_env[norm(n)] = Gx
             # the symmetric fill: C[:, modes] = conj(C[modes, :])^T ; G[:, modes] = G[modes, :]^T
-            if isinstance(n, ast.Subscript) and norm(n).endswith("._C[modes, :]"):
+            if fb == ("_C", "rows"):
                 text_env[norm(n)] = mo.sym("Crow")
-            if isinstance(n, ast.Subscript) and norm(n).endswith("._G[modes, :]"):
+            if fb == ("_G", "rows"):
                 text_env[norm(n)] = mo.sym("Grow")
         ev = mo.WordEval(env, text_env)
         Az = A if has_active else mo.ZERO
